@@ -51,11 +51,11 @@ def arp_bytes(rng):
 def eth_bytes(rng, inner=None):
     if inner is None:
         k = rng.random()
-        if k < 0.45:
+        # below EthernetII only ARP (this family) or an unrecognised EtherType: chains into the other families' classes
+        # are their generators' business (their open defects would only add noise here)
+        if k < 0.5:
             return rb(rng, 12) + be(unrecognised_ether(rng), 2) + rb(rng, rng.choice([0, 1, 2, 46, rng.randint(0, 60)]))
-        if k < 0.85:
-            return rb(rng, 12) + be(0x0806, 2) + arp_bytes(rng)
-        return rb(rng, 12) + be(rng.choice(sorted(RECOGNISED_ETHER)), 2) + rb(rng, rng.randint(0, 40))
+        return rb(rng, 12) + be(0x0806, 2) + arp_bytes(rng)
     return rb(rng, 12) + inner
 
 
@@ -290,6 +290,9 @@ def mutate(rng, b):
 
 def gen_parse(rng, n):
     ops = []
+    if n >= 20000:
+        # thorough tier: small-scope exhaustive over truncation points of a few structured packets per class
+        ops += every_prefix_ops(rng, 4)
     while len(ops) < n:
         cls, g = rng.choices(PARSE_GENS, PARSE_WEIGHTS)[0]
         b = g(rng)
